@@ -41,6 +41,24 @@ Judge(l) == /\ l.kind = "ok"
             /\ l.afterBuild = <<>>                                             \* building / composing runs no user effect
             /\ \A i \in DOMAIN l.evals : EvalOK(l.prog, l.evals[i])            \* each evaluation: Run(p), again and again
 
+\* ---- overlapping evaluations of one monad (an effect whose k-th evaluation yields k): every Subscribe delivers exactly once the
+\* value of ITS OWN evaluation, so the n deliveries are exactly the n values produced, each once, on the subscribe handler;
+\* every evaluation runs on the observe handler (or on the subscribing goroutine).
+\* l = [part |-> "conc", n, obOn, subOn, effects |-> <<[v, thr]>>, delivered |-> <<[v, thr]>>, kind]
+JudgeConc(l) ==
+  /\ l.kind = "ok"
+  /\ Len(l.effects) = l.n /\ {l.effects[i].v : i \in DOMAIN l.effects} = 1..l.n
+  /\ \A i \in DOMAIN l.effects : l.effects[i].thr = (IF l.obOn = "nil" THEN l.effects[i].thr ELSE l.obOn) /\ (l.obOn = "nil" => l.effects[i].thr \in {"caller", "other"})
+  /\ Len(l.delivered) = l.n /\ {l.delivered[i].v : i \in DOMAIN l.delivered} = 1..l.n          \* each evaluation's value, exactly once
+  /\ \A i \in DOMAIN l.delivered : l.delivered[i].thr = l.subOn
+\* ---- a Subscribe made under ObserveOn(h1)/SubscribeOn(h2) keeps these handlers when the monad is reconfigured (SubscribeOn(newSub))
+\* while its effect is still running
+JudgeReconf(l) ==
+  /\ l.kind = "ok"
+  /\ l.effects = <<[v |-> 7, thr |-> l.obOn]>>
+  /\ l.delivered = <<[v |-> 7, thr |-> l.subOn]>>
+JudgePart(l) == IF l.part = "conc" THEN JudgeConc(l) ELSE JudgeReconf(l)
+
 \* ---- the monad laws on the denotation (checked by TLC over the bounded program space in MC_MonadIO)
 \* left identity: Just(x).FlatMap(f) behaves as f(x) (plus the invocation of f itself)
 LeftIdentity(x, f) == Run(Prog("just", x, <<f>>)) = [RunApply(f, x) EXCEPT !.log = <<200 + f.j>> \o @]
